@@ -1361,6 +1361,20 @@ def run(ctx, shard):
                         return
                     raise
 
+        # anchor configurations first (maximally mixed and a generic full-rank separable state: fast, accurate solves), so that every SDP
+        # consumer is observed on labelled states before the hostile (rank-deficient -> slow SCS fall-back) states can use up the budget
+        for dims in [(2, 2), (3, 2), (2, 3)]:
+            for kind in ('max-mixed', 'full-rank'):
+                rho = harness_state(dims, kind)[0]
+                if rho is None:
+                    continue
+                ctx.set_case(dict(reg.lookup(rho, dims) or {}, state_kind=kind, consumer='naive extension / SDP measures (anchor)'))
+                sdp_call('get_ABk_symmetric_extension_ree', lambda: E.get_ABk_symmetric_extension_ree(rho, dims, 2))
+                if kind == 'max-mixed':
+                    sdp_call('get_ABk_symmetric_extension_ree', lambda: E.get_ABk_symmetric_extension_ree(rho, dims, 1, use_ppt=True))
+                    sdp_call('get_ppt_ree', lambda: E.get_ppt_ree(rho, dims[0], dims[1], use_tqdm=False))
+                    sdp_call('get_linear_entropy_entanglement_ppt', lambda: E.get_linear_entropy_entanglement_ppt(rho, dims))
+                    sdp_call('is_ABk_symmetric_ext_naive', lambda: E.is_ABk_symmetric_ext_naive(rho, dims, 2, index_kind='2d'))
         for di, dims in enumerate([tuple(d) for d in shard['sdp_dims']]):
             for j in range(shard['nsdp']):
                 if ctx.time_left() < 10:
